@@ -175,6 +175,21 @@ Definition has_key (s : db) (lid : nat) (k : skey) (v : val) : Prop :=
 Definition lacks_key (s : db) (lid : nat) (k : skey) : Prop :=
   forall r i n ss p, hget s lid = Some (Diff r i n ss p) -> aget skey_eqb (kv_data ss) k = None.
 
+(* [ordered d l]: no entry of l is a descendant of a later entry *)
+Fixpoint ordered (d : descmap) (l : list N) : Prop :=
+  match l with
+  | [] => True
+  | x :: r => (forall y, In y r -> is_descendant d x y = false) /\ ordered d r
+  end.
+
+Lemma ordered_split d : forall l1 x l2 y l3,
+  ordered d (l1 ++ x :: l2 ++ y :: l3) -> is_descendant d x y = false.
+Proof.
+  induction l1 as [|a l1 IH]; intros x l2 y l3 H.
+  - cbn [app] in H. destruct H as [H _]. apply H. apply in_or_app. right. now left.
+  - cbn [app] in H. destruct H as [_ H]. eapply IH; eauto.
+Qed.
+
 Record Inv (s : db) : Prop := {
   (* tree.base is a disk layer that is not stale *)
   inv_base : exists broot bi bb bf, hget s (t_base (tr s)) = Some (Disk broot bi bb bf false);
@@ -194,8 +209,14 @@ Record Inv (s : db) : Prop := {
       exists lid v, tget s e = Some lid /\ has_key s lid k v;
   (* insertion order extends the ancestor order: a later entry is never an
      ancestor of an earlier one *)
-  inv_order : forall k l1 x l2 y l3, lk_list s k = l1 ++ x :: l2 ++ y :: l3 ->
-      is_descendant (t_desc (tr s)) x y = false
+  inv_order : forall k, ordered (t_desc (tr s)) (lk_list s k);
+  (* no junk: the descendants sets mention roots of the tree only *)
+  inv_desc_live : forall r e, is_descendant (t_desc (tr s)) r e = true ->
+      In r (live_roots s) /\ In e (live_roots s);
+  inv_lk_nodup : forall k, NoDup (lk_list s k);
+  (* the state set of a diff layer is a map: no key twice *)
+  inv_keys_nodup : forall r lid r' i n ss p, tget s r = Some lid ->
+      hget s lid = Some (Diff r' i n ss p) -> NoDup (map fst (kv_data ss))
 }.
 
 Lemma root_of_fun s lid r1 r2 : root_of s lid r1 -> root_of s lid r2 -> r1 = r2.
@@ -309,7 +330,7 @@ Proof.
       rewrite HL in HinL. apply in_app_or in HinL. destruct HinL as [HinL|[Heq|HinL]].
       + destruct (in_split _ _ HinL) as (a & c & ->).
         assert (Hord : is_descendant (t_desc (tr s)) rz e = false).
-        { apply (inv_order s I k a rz c e l2). rewrite HL. now rewrite <- app_assoc. }
+        { apply (ordered_split _ a rz c e l2). rewrite <- app_assoc in HL. cbn [app] in HL. rewrite <- HL. apply (inv_order s I). }
         (* but lid_e is on the tail of z's own path *)
         destruct (in_split _ _ Hz) as (a' & c' & ->).
         rewrite <- app_assoc in Hsplit. cbn [app] in Hsplit. rewrite Hsplit in Hp.
@@ -430,7 +451,10 @@ Proof.
     + intros [].
     + intros (lid & v & H & (r & i & n & ss & p & Hd & _)).
       destruct (init_tget _ _ _ H) as [-> ->]. cbn in Hd. discriminate.
-  - intros k l1 x l2 y l3 H. destruct l1; discriminate.
+  - intros k. exact I.
+  - intros r e H. cbn in H. discriminate.
+  - intros k. constructor.
+  - intros r lid r' i n ss p H Hd. destruct (init_tget _ _ _ H) as [-> ->]. cbn in Hd. discriminate.
 Qed.
 
 (* ---- the defect repaired by /repo commit d78fb6c457, on the model without the re-link ------
